@@ -194,7 +194,8 @@ def ticks_in(writes: List[Any]) -> List[Dict[str, Any]]:
     return [w[2] for w in writes if w[0] == "tick"]
 
 
-def run_restarted_from_writes(make_workflow: Any, writes: List[Any], idle_timeout: Any = 1000, horizon: int = 12, record: bool = False) -> Dict[str, Any]:
+def run_restarted_from_writes(make_workflow: Any, writes: List[Any], idle_timeout: Any = 1000, horizon: int = 12, record: bool = False,
+                              sqlite_path: Optional[str] = None) -> Dict[str, Any]:
     """Server restart after a crash that happened right after the last of ``writes`` reached the store: a fresh store gets
     exactly these writes (handler row states, ticks, events), a fresh stack is started over it."""
     from llama_agents.server._store.memory_workflow_store import MemoryWorkflowStore
@@ -208,7 +209,13 @@ def run_restarted_from_writes(make_workflow: Any, writes: List[Any], idle_timeou
     writes = native(lambda: [(w[0], w[1].model_copy(deep=True)) if w[0] == "update" else w for w in writes])
 
     async def main() -> None:
-        store = make_recording_store() if record else MemoryWorkflowStore()
+        if sqlite_path is not None:
+            # the restarted process finds the rows in a SQLite database (written through the real SqliteWorkflowStore, upserts included)
+            from llama_agents.server._store.sqlite.sqlite_workflow_store import SqliteWorkflowStore
+
+            store = SqliteWorkflowStore(sqlite_path)
+        else:
+            store = make_recording_store() if record else MemoryWorkflowStore()
         for w in writes:
             if w[0] == "update":
                 await store.update(w[1])
